@@ -43,6 +43,7 @@ Template(kd, f, g) ==
     [] kd = "bin"      -> << L("index", 0, 0), L("binary", f, f) >>
     [] kd = "binadd"   -> << L("newfile", 0, 0), L("index", 0, 0), L("binary", 0, f) >>
     \* `git diff --no-index old.png new.png`: two different paths on the diff line, and no line that names either alone
+    [] kd = "renbin"   -> << L("simil", 0, 0), L("renfrom", f, 0), L("rento", g, 0), L("index", 0, 0), L("binary", f, g) >>
     [] kd = "binx"     -> << L("index", 0, 0), L("binary", f, g) >>
     [] kd = "cc"       -> << L("index", 0, 0), L("mmm", f, 0), L("ppp", f, 0) >>   \* diff --cc / --combined (merge)
     [] kd = "bare"     -> << >>
@@ -52,9 +53,9 @@ Template(kd, f, g) ==
     [] kd = "subshort" -> << L("index", 0, 0), L("mmm", f, 0), L("ppp", f, 0), L("hh", 0, 0), L("subm", 0, 0), L("subp", 0, 0) >>
 
 HasHunks(kd)  == kd \in {"mod", "add", "del", "renmod", "modemod", "cc"}
-TwoPaths(kd)  == kd \in {"rename", "renmod", "copy", "renmode", "binx"}
+TwoPaths(kd)  == kd \in {"rename", "renmod", "copy", "renmode", "binx", "renbin"}
 AllKinds == {"mod", "add", "addempty", "del", "rename", "renmod", "copy", "modeonly", "modemod", "bin",
-             "binadd", "bare", "cc", "sublog", "subshort", "modebin", "renmode", "binx"}
+             "binadd", "bare", "cc", "sublog", "subshort", "modebin", "renmode", "binx", "renbin"}
 
 BodyClasses == {"minus", "plus", "zero"}
 
@@ -98,7 +99,7 @@ Body ==
   /\ \E c \in BodyClasses : Emit(L(c, 0, 0), [gs EXCEPT !.nb = @ + 1, !.last = c])
 
 NoNewline ==   \* "\ No newline at end of file" follows a body line
-  /\ gs.todo = <<>> /\ gs.nh >= 1 /\ gs.nb >= 1 /\ gs.last \in BodyClasses /\ ~gs.closed /\ gs.conf = "" /\ gs.kd # "cc"
+  /\ gs.todo = <<>> /\ gs.nh >= 1 /\ gs.nb >= 1 /\ gs.last \in BodyClasses /\ ~gs.closed /\ gs.conf = ""
   /\ Emit(L("nonl", 0, 0), [gs EXCEPT !.last = "nonl"])
 
 (* A conflict region inside a hunk of a combined diff:  ++<<<<<<< ours  [++||||||| base]   *)
